@@ -16,7 +16,7 @@ CONSTANTS
   MaxAged = 0
   Ops = {"flushall", "close"}
   CloseAfterWrites = TRUE
-  CloseDrains = FALSE
+  CloseDrains = TRUE
   Coarse = TRUE
   Emit = TRUE
 INVARIANTS EmitInv
